@@ -32,10 +32,17 @@ def r_C13eval(root):
         o = {".__class__": c, "._tx_fqn": c["._tx_fqn"], ".kind": "obj", "._tx_position": _pos[0], "._tx_position_end": _pos[0] + 5}
         for k, v in kw.items(): o["." + k] = v
         return o
+    class _Eq(dict):
+        """object of a user class with a value-based __eq__: distinct objects that compare equal"""
+        __hash__ = object.__hash__
+        def __eq__(a, b): return isinstance(b, _Eq) and a.get(".eqkey") == b.get(".eqkey")
+        def __ne__(a, b): return not a.__eq__(b)
     leafk = obj(cLeaf); s1 = obj(cS1, kid=leafk); s2 = obj(cS2); leaf1 = obj(cLeaf); leaf2 = obj(cLeaf)
-    model = obj(cModel, items=[s1, s2], single=leaf1, ref=leaf2, name="n")
-    R1 = {".kind": "replacement", ".tag": "by Special1"}; RB = {".kind": "replacement", ".tag": "by Base"}
-    registered = {"Special1": lambda o: R1, "Base": lambda o: RB, "Leaf": lambda o: None, "Model": lambda o: None, "ID": lambda o: "processed-n"}
+    s3 = _Eq(obj(cS2, eqkey="same")); s4 = _Eq(obj(cS2, eqkey="same"))
+    # the list starts with a None element (a value an earlier processor reduced to None) and holds two distinct objects that compare equal
+    model = obj(cModel, items=[None, s1, s2, s3, s4], single=leaf1, ref=leaf2, name="n")
+    R1 = {".kind": "replacement", ".tag": "by Special1"}; RB = {".kind": "replacement", ".tag": "by Base"}; RB4 = {".kind": "replacement", ".tag": "by Base for the second of the equal objects"}
+    registered = {"Special1": lambda o: R1, "Base": lambda o: None if o is s3 else (RB4 if o is s4 else RB), "Leaf": lambda o: None, "Model": lambda o: None, "ID": lambda o: "processed-n"}
     log = []
     # the stand-in binds its arguments the way the analysed TextXMetaModel.process declares them
     pr_fn = find(load(root, "textx/metamodel.py"), "TextXMetaModel.process"); pr_ps = [a.arg for a in pr_fn.args.args][1:]
@@ -60,7 +67,7 @@ def r_C13eval(root):
     try: k, v = "ret", pyeval.run_block(cp.body, env)
     except pyeval.Raised as r_: k, v = "raise", r_.cls
     except pyeval.Unsupported as u_: raise AnalysisError("call_obj_processors: outside the evaluated subset: %s" % u_)
-    names = {id(leafk): "leafk", id(s1): "s1", id(s2): "s2", id(leaf1): "leaf1", id(leaf2): "leaf2", id(model): "model"}
+    names = {id(leafk): "leafk", id(s1): "s1", id(s2): "s2", id(s3): "s3", id(s4): "s4", id(leaf1): "leaf1", id(leaf2): "leaf2", id(model): "model"}
     seq = [(names.get(id(o), "n" if o == "n" else "?"), n) for o, n, _l in log]
     W = "parse_tree_to_objgraph.call_obj_processors"
     def rep(ok, clause, what, msg, prop="C13"):
@@ -69,7 +76,7 @@ def r_C13eval(root):
         if not ok: out.append(Finding(prop, clause, M, W, what, msg))
     rep(k == "ret", "C13.a", "the walk over the sample model completes", "the processor walk over the sample model raises %s" % (v,))
     if k != "ret": return inst, out
-    want_seq = [("leafk", "Leaf"), ("s1", "Special1"), ("s1", "Base"), ("s2", "Base"), ("leaf1", "Leaf"), ("model", "Model")]
+    want_seq = [("leafk", "Leaf"), ("s1", "Special1"), ("s1", "Base"), ("s2", "Base"), ("s3", "Base"), ("s4", "Base"), ("leaf1", "Leaf"), ("model", "Model")]
     pos = {x: i for i, x in enumerate(seq)}
     contains = [("model", "s1"), ("model", "s2"), ("model", "leaf1"), ("s1", "leafk")]
     def first(o_): return min([i for i, x in enumerate(seq) if x[0] == o_], default=None)
@@ -82,8 +89,8 @@ def r_C13eval(root):
     rep(len(seq) == len(set(seq)) and sorted(seq) == sorted(want_seq), "C13.a", "each registered processor is called exactly once per object",
         "processor calls on the sample model: %s; expected exactly %s (Special2 has no processor; the non-contained Leaf and the match-rule value are not the walker's business)" % (seq, want_seq))
     items = model.get(".items")
-    rep(isinstance(items, list) and len(items) == 2 and items[0] is R1 and items[1] is RB, "C13.b", "replacement in a list attribute, own-rule result wins",
-        "after the walk the list attribute holds %s; expected [replacement returned by Special1's processor, replacement returned by Base's processor]" % ([x.get(".tag", x.get(".kind")) if isinstance(x, dict) else x for x in items] if isinstance(items, list) else items,))
+    rep(isinstance(items, list) and len(items) == 5 and items[0] is None and items[1] is R1 and items[2] is RB and items[3] is s3 and items[4] is RB4, "C13.b", "replacements land in the slot of the processed element, own-rule result wins",
+        "after the walk the list attribute holds %s; expected [None (untouched), the replacement returned by Special1's processor, the replacement returned by Base's processor, the third object itself (its processor returned None), the replacement for the fourth object] - every result belongs in the slot of the element it was computed for, also after a None element and for objects that compare equal" % ([("None" if x is None else x.get(".tag", "the object s3" if x is s3 else "the object s4" if x is s4 else x.get(".kind"))) for x in items] if isinstance(items, list) else items,))
     rep(model.get(".single") is leaf1, "C13.b", "a None result leaves the object in place", "a processor that returns None must leave the object in its attribute; the attribute now holds %s" % (names.get(id(model.get(".single")), model.get(".single")),))
     rep(not any(o is leaf2 for o, _n, _l in log) and model.get(".ref") is leaf2, "C13.c", "non-contained attributes are not descended", "the walker processed the target of a non-containment reference (it is processed where it is contained)")
     rep(not any(n == "ID" for _o, n, _l in log) and model.get(".name") == "n", "C13.c", "match-rule values are skipped", "the walker ran a processor on a match-rule value (these run during model construction, in process_match)")
